@@ -472,8 +472,9 @@ class Gen:
     tests, value-only and effectful statements in non-tail sequence positions, rest parameters (rich=True)."""
     def __init__(self, rng, rich=False):
         self.rng, self.rich = rng, rich
+        self.ratnames = set()     # names bound somewhere to an exact division: never injected into an integer expression
         self.stats = dict(fold=0, fold_raises=0, let_const=0, let_mutated=0, shadow=0, const_test=0, seq_drop=0, effect_stmt=0, rest=0,
-                          quoted=0, quoted_false_test=0, macro_cond=0)
+                          quoted=0, quoted_false_test=0, macro_cond=0, ratio=0)
 
     def q(self, s):
         """either spelling of a self-evaluating constant: as itself (analyze returns an immediate, or the heap datum) or
@@ -517,7 +518,7 @@ class Gen:
             if op == "-" and n == 0: n = 1
             args = [self.intexpr(scope, d - 1) for _ in range(n)]
             if op in ("+", "*", "-") and n >= 2 and self.rng.random() < 0.08:
-                args[self.rng.randrange(n)] = self.rng.choice(['#t', "'#f", '"s1"', "'\"s2\"", "'q2", "'()", "'(1 2)", "#\\a"] + list(names))   # evaluation raises
+                args[self.rng.randrange(n)] = self.rng.choice(['#t', "'#f", '"s1"', "'\"s2\"", "'q2", "'()", "'(1 2)", "#\\a"] + [v for v in names if v not in self.ratnames])   # evaluation raises (a ratio would not)
                 self.stats["fold_raises"] += 1
             if all(_isint(a) for a in args): self.stats["fold"] += 1
             if op in ("quotient", "remainder") and n == 2 and _isint(args[1]) and int(_unq(args[1])) == 0: self.stats["fold_raises"] += 1
@@ -581,6 +582,8 @@ class Gen:
                 if _isint(a): newints.add(nm)
             elif r < 0.6:
                 a = "(+ 1 %d)" % self.rng.randrange(5); self.stats["let_const"] += 1; newints.add(nm)
+            elif r < 0.67 and d > 1:
+                a = self.ratexpr(scope, d - 1); self.ratnames.add(nm)
             else:
                 a = self.intexpr(scope, d - 1); newints.add(nm)
             args.append(a)
@@ -594,8 +597,21 @@ class Gen:
         if "(set! " in b: self.stats["let_mutated"] += 1
         return "((lambda (%s) %s) %s)" % (params, b, " ".join(args))
 
+    def ratexpr(self, scope, d):
+        """exact division and arithmetic on its (possibly non-integer) results: never an operand of quotient/remainder"""
+        self.stats["ratio"] += 1
+        i = lambda: self.intexpr(scope, d - 1) if self.rng.random() < 0.5 else self.q(str(self.rng.choice([0, 1, 2, 3, 4, 6, -6, 7, 12, -9, 1 << 62, 3037000500])))
+        quo = lambda: "(/ %s)" % " ".join(i() for _ in range(self.rng.choice([1, 2, 2, 2, 3])))
+        r = self.rng.random()
+        if r < 0.5: return quo()
+        if r < 0.6: return self.q("%d/%d" % (self.rng.choice([1, -3, 5, 7]), self.rng.choice([2, 4, 9])))
+        if r < 0.8: return "(%s %s %s)" % (self.rng.choice(["+", "*", "-"]), quo(), self.rng.choice([i(), quo(), "1/2", "'2/3"]))
+        if r < 0.9: return "(- %s)" % quo()
+        return "(/ %s %s)" % (quo(), quo())
+
     def expr(self, scope, d):
         r = self.rng.random()
+        if d > 0 and r > 0.9: return self.ratexpr(scope, d)
         if d <= 0:
             return self.intexpr(scope, 0) if r < 0.7 else (self.rng.choice(scope[0]) if scope[0] and r < 0.85 else self.lit())
         if r < 0.35: return self.let(scope, d)
@@ -605,6 +621,17 @@ class Gen:
 
     def program(self):
         return self.let(([], set()), self.rng.choice([2, 3, 3, 4]))
+
+    def arity_program(self):
+        """a lambda with a rest parameter, simplified ONCE (folds, propagated constants in both spellings, dropped
+        statements inside it), then called with several different argument counts; the rest list is used, unused or
+        assigned.  Rest parameters are outside the SPEC interpreters: four-build differential."""
+        r = self.rng
+        c1, c2 = self.lit(), self.intlit()
+        use = r.choice(["(out r)", "(out (length r))", "(set! r (cons k r)) (out r)", "'unused", "(if (pair? r) (out (car r)) (out 'none))", "(out (apply + a r))"])
+        body = "((lambda (k flag) %s (if flag (+ a k (quotient 7 2)) (quotient a 0))) %s %s)" % (use, c2, r.choice(["'#t", "#t", "'0", "'()", "(+ 1 2)"]))
+        calls = " ".join("(out (f %s))" % " ".join(str(r.randrange(9)) for _ in range(n)) for n in r.sample([1, 2, 3, 4], r.choice([2, 3])))
+        return "((lambda (f) %s %s (f 0)) (lambda (a . r) %s %s))" % (calls, c1, r.choice(["1", "'x", "a", "r"]), body)
 
     def closure_program(self):
         """core forms only (lambda, set!, if, application): first-class closures, recursion through an assigned
@@ -637,6 +664,9 @@ class Names:
 
     def const(self, c):
         if c[0] == "i": return "i" + shex(int(c[1:]))
+        if c[0] == "r":
+            n, d = c[1:].split("/")
+            return "r%s/%s" % (shex(int(n)), shex(int(d)))
         if c in ("t", "f", "v"): return c
         return "o%d" % self.tags.setdefault(c[1:], len(self.tags) + 1)
 
@@ -686,6 +716,9 @@ def _show_const(c, nm):
     """how (write v) prints a model constant"""
     if c[0] == "i":
         return str(int(c[1:], 16)) if not c.startswith("i-") else str(-int(c[2:], 16))
+    if c[0] == "r":
+        n, d = c[1:].split("/")
+        return "%d/%d" % (int(n, 16) if not n.startswith("-") else -int(n[1:], 16), int(d, 16))
     if c == "t": return "#t"
     if c == "f": return "#f"
     if c == "v": return None
@@ -860,7 +893,10 @@ def _handler_part(ctx, dirs):
                 continue
             ref = outs.get("nosimplify", {}).get(i)
             if v != "nosimplify" and ref == exp:
-                sig = "simplify:compile-time-effect-under-handler" if v == "default" else "build-variant:%s-changes-handler-trace" % v
+                tr = (got or ["", ""])[-1]
+                early = got is None or "compiled" not in tr or tr.index("compiled") > tr.index("(") + 12     # something happened before 'compiled'
+                sig = (("simplify:compile-time-effect-under-handler" if early else "simplify:changes-outcome-of-evaluated-code") if v == "default"
+                       else "build-variant:%s-changes-handler-trace" % v)
                 why = "the program's handler / trace / result differs from the SEXP_USE_SIMPLIFY=0 build and from R7RS: compiling code (eval) must execute none of it"
             else:
                 sig = "sem:handler-trace-differs-from-spec:" + v
@@ -872,8 +908,52 @@ def _handler_part(ctx, dirs):
     ctx.note("eval-under-handler programs: %d (9 context families x 8 code shapes x %d raising folds), all four builds = R7RS oracle" % (len(hp), len(RAISING_FOLDS)))
 
 
+# A non-final sequence element that is a bare variable reference is dropped (simplify.c:139-141) even when the variable
+# is an UNBOUND global.  R7RS 4.1.1 / 1.3.2: referencing an unbound variable "is an error" - an implementation is not
+# required to detect it - so losing the error is permitted, while every other outcome is not: the statement has no
+# other effect, the value of the sequence is that of its last element, and a reference in TAIL position must stay.
+UNBOUND_STMT = [("(begin c09-unbound-a 5)", ["RES 5"]), ("((lambda (x) c09-unbound-b x) 7)", ["RES 7"]),
+                ("((lambda (x) (out x) c09-unbound-c (out (+ x 1)) 'done) 1)", ["1", "2", "RES done"]),
+                ("(begin 5 c09-unbound-d)", None), ("((lambda (x) (if x c09-unbound-e 1)) '#t)", None)]
+
+
+def _unbound_part(ctx, dirs):
+    text = OUTER_PRELUDE + "\n".join("(run-case %d (lambda () %s))" % (i, p) for i, (p, _) in enumerate(UNBOUND_STMT)) + "\n"
+    for v, d in dirs.items():
+        o = _split_cases(_run_file(d, text, "unbound-" + v).stdout)
+        for i, (p, dropped) in enumerate(UNBOUND_STMT):
+            got = o.get(i)
+            ctx.count(1, key=("unbound", v, p), nontrivial=True)
+            err = got is not None and got and got[-1] == "ERR" and (dropped is None or got[:-1] == dropped[:len(got) - 1])
+            if not (err or (dropped is not None and got == dropped)):
+                ctx.violation("simplify:unbound-reference-statement", input=p, variant=v, observed=got,
+                              expected="an error from the unbound reference, or (reference in a non-final position only) %s" % dropped,
+                              replay=_heredoc_replay(OUTER_PRELUDE + "(run-case 0 (lambda () %s))\n" % p, [d], "see expected"),
+                              why="a dropped reference to an unbound global may lose the error (R7RS does not require it) but nothing else may change")
+    ctx.assume("a non-final sequence element that references an UNBOUND global may be dropped by the pass: R7RS calls the reference 'an error' without requiring it to be signalled; "
+               "the default build then continues where SEXP_USE_SIMPLIFY=0 raises (checked: no other outcome occurs, tail references are kept)")
+
+
+def _opcode_table(ctx):
+    """(G-lite) the set of opcodes the pass may fold = class SEXP_OPC_ARITHMETIC in opcodes.c; the model's is_arith says 0..5"""
+    import re
+    try:
+        src = open(os.path.join(B.REPO, "opcodes.c")).read()
+    except OSError as e:
+        ctx.broken("table:arithmetic-opcode-class", "cannot read opcodes.c: %s" % e)
+        return
+    names = re.findall(r'_OP\(\s*SEXP_OPC_ARITHMETIC\s*,[^\n]*?"([^"]+)"', src)
+    want = [k for k, v in sorted(OPCODES.items(), key=lambda kv: kv[1]) if v <= 5]
+    if sorted(names) != sorted(want):
+        ctx.broken("table:arithmetic-opcode-class", "opcodes.c flags %s as SEXP_OPC_ARITHMETIC (foldable by simplify.c:39); the model (Simplify.is_arith, prim_eval) knows %s" % (sorted(names), sorted(want)))
+    m = re.search(r"sexp_opcode_class\(sexp_car\(app\)\)\s*==\s*(\w+)", open(os.path.join(B.REPO, "simplify.c")).read())
+    if not m or m.group(1) != "SEXP_OPC_ARITHMETIC":
+        ctx.broken("table:arithmetic-opcode-class", "simplify.c no longer restricts folding to class SEXP_OPC_ARITHMETIC (found %s)" % (m.group(1) if m else None))
+
+
 def _simplify_part(ctx, exe, dirs):
     rng = ctx.rng
+    _opcode_table(ctx)
     n = 500 if not ctx.thorough else 20000
     g = Gen(rng)
     progs = [g.program() for _ in range(n)]
@@ -911,6 +991,34 @@ def _simplify_part(ctx, exe, dirs):
             dynobs[int(f[0])] = f[1:]
     if r.returncode != 0 or len(after) != len(progs):
         ctx.broken("inner-correspondence:C09:simplify", "dump harness rc=%s, %d of %d cases: %s" % (r.returncode, len(after), len(progs), (r.stderr or r.stdout)[-600:]))
+    for i in range(len(progs)):
+        if i not in before:
+            continue
+        ctx.count(1, key=("innerDyn", progs[i]), nontrivial=("quotient" in progs[i] or "remainder" in progs[i] or "'q" in progs[i] or '"s' in progs[i]))
+        # (A) the dynamic state of the compiling program: the model (fold_eval_unobservable) says no handler call during
+        # the pass, the handler still installed afterwards (the probe reaches it), the parameter binding intact
+        obs = dynobs.get(i)
+        if obs != ["H", "p", "prm-ok"]:
+            hreplay = _heredoc_replay(
+                "(import (scheme base) (scheme write) (scheme eval))\n(define prm (make-parameter 0))\n"
+                "(with-exception-handler\n  (lambda (e) (write-string \"HANDLER CALLED: \") (write (if (symbol? e) e 'error)) (newline) 0)\n"
+                "  (lambda () (parameterize ((prm 1))\n    (eval '(lambda () %s) (environment '(scheme base)))\n"
+                "    (write-string \"compiled\") (newline) (raise-continuable 'probe) (write (prm)) (newline))))\n" % progs[i],
+                [d0] + ([dirs["nosimplify"]] if "nosimplify" in dirs else []), "must print exactly: compiled / HANDLER CALLED: probe / 1")
+            if obs is None:
+                pass            # the case produced no dump at all: reported above
+            elif "h" in obs or obs[0] == "X":
+                ctx.violation("simplify:fold-calls-user-handler", input="(with-exception-handler H (lambda () (eval '(lambda () %s) env)))" % progs[i],
+                              expected="the handler H is not called while the code is compiled (nothing of it is executed): handler calls during the pass = []",
+                              observed=("handler called %d time(s) during sexp_simplify; observed calls: %s" % (obs.count("h"), " ".join(obs[1:])) if obs[0] == "H" else
+                                        "the handler was called during sexp_simplify and, when it returned, an exception escaped from the compilation"), replay=hreplay,
+                              why="constant folding evaluates an application that raises with the program's own exception handler installed: "
+                                  "code that is never executed has an observable effect (SEXP_USE_SIMPLIFY=0 never evaluates it); model: Kinded.fold_eval / fold_eval_unobservable")
+            else:
+                ctx.violation("simplify:fold-disturbs-dynamic-state", input="(with-exception-handler H (lambda () (parameterize ((p v)) (eval '(lambda () %s) env) (raise-continuable 'probe) (p))))" % progs[i],
+                              expected="after compiling, the handler H is still installed (the probe reaches it) and (p) is still v: H p prm-ok",
+                              observed=" ".join(obs), replay=hreplay,
+                              why="the constant folder does not restore the exception handler / parameter bindings of the program that called eval (vm.c sexp_apply_no_err_handler)")
     reqs, idx, nms = [], [], {}
     for i in range(len(progs)):
         if i in before and i in after:
@@ -943,30 +1051,6 @@ def _simplify_part(ctx, exe, dirs):
         ctx.cov["traces_validated_against_impl"] += 1
         replay = "cat %s > /tmp/c09.scm; echo \"(c09-case 0 '(lambda () %s))\" >> /tmp/c09.scm; LD_LIBRARY_PATH=%s CHIBI_MODULE_PATH=%s/lib %s/chibi-scheme /tmp/c09.scm   # A = analysed, B = after sexp_simplify" % (
             os.path.join(HERE, "..", "harness", "c09_simplify.scm"), progs[i].replace('"', '\\"'), d0, d0, d0)
-        # (A) the dynamic state of the compiling program: the model (fold_eval_unobservable) says no handler call during
-        # the pass, the handler still installed afterwards (the probe reaches it), the parameter binding intact
-        obs = dynobs.get(i)
-        if os.environ.get("C09_DEBUG") and obs != ["H", "p", "prm-ok"]: print("DBG", i, obs)
-        if obs != ["H", "p", "prm-ok"]:
-            hreplay = _heredoc_replay(
-                "(import (scheme base) (scheme write) (scheme eval))\n(define prm (make-parameter 0))\n"
-                "(with-exception-handler\n  (lambda (e) (write-string \"HANDLER CALLED: \") (write (if (symbol? e) e 'error)) (newline) 0)\n"
-                "  (lambda () (parameterize ((prm 1))\n    (eval '(lambda () %s) (environment '(scheme base)))\n"
-                "    (write-string \"compiled\") (newline) (raise-continuable 'probe) (write (prm)) (newline))))\n" % progs[i],
-                [d0] + ([dirs["nosimplify"]] if "nosimplify" in dirs else []), "must print exactly: compiled / HANDLER CALLED: probe / 1")
-            if obs is None:
-                pass            # the case produced no dump at all: reported above
-            elif obs[0] == "H" and "h" in obs:
-                ctx.violation("simplify:fold-calls-user-handler", input="(with-exception-handler H (lambda () (eval '(lambda () %s) env)))" % progs[i],
-                              expected="the handler H is not called while the code is compiled (nothing of it is executed): handler calls during the pass = []",
-                              observed="handler called %d time(s) during sexp_simplify; observed calls %s" % (obs.count("h"), " ".join(obs[1:])), replay=hreplay,
-                              why="constant folding evaluates an application that raises with the program's own exception handler installed: "
-                                  "code that is never executed has an observable effect (SEXP_USE_SIMPLIFY=0 never evaluates it); model: Kinded.fold_eval / fold_eval_unobservable")
-            else:
-                ctx.violation("simplify:fold-disturbs-dynamic-state", input="(with-exception-handler H (lambda () (parameterize ((p v)) (eval '(lambda () %s) env) (raise-continuable 'probe) (p))))" % progs[i],
-                              expected="after compiling, the handler H is still installed (the probe reaches it) and (p) is still v: H p prm-ok",
-                              observed=" ".join(obs), replay=hreplay,
-                              why="the constant folder does not restore the exception handler / parameter bindings of the program that called eval (vm.c sexp_apply_no_err_handler)")
         if m_wf != "1":
             ctx.broken("inner-correspondence:C09:wf", "analysed program is not well-formed for the model (lambda-set-vars / lambda identities): %s" % progs[i])
         if m_simpl != " ".join(b):
@@ -989,7 +1073,7 @@ def _simplify_part(ctx, exe, dirs):
         ctx.sample(dict(kind="inner-simplify", program=progs[i], analysed=" ".join(before[i]), optimized=" ".join(after[i]), spec=sem[i][0]))
     # ---------------------------------------------------------------- K-outer: the same programs under the four builds
     g2 = Gen(rng, rich=True)
-    rich = RICH + [g2.program() for _ in range(n // 2)]
+    rich = RICH + [g2.program() for _ in range(n // 2)] + [g2.arity_program() for _ in range(n // 10)]
     allp = progs + rich
     text = OUTER_PRELUDE + "\n".join("(run-case %d (lambda () %s))" % (i, p) for i, p in enumerate(allp)) + "\n"
     outs = {}
@@ -1030,6 +1114,7 @@ def _simplify_part(ctx, exe, dirs):
                     ctx.violation("sem:nosimplify-build-differs-from-spec", input=p, expected=exp, observed=ref, replay=replay,
                                   why="the unoptimised build prints something else than the SPEC interpreter (coq/C09/Simplify.v eval) defines")
     _handler_part(ctx, dirs)
+    _unbound_part(ctx, dirs)
     ctx.sample(dict(kind="outer-variants", program=allp[len(progs)], outputs={v: outs[v].get(len(progs)) for v in outs}))
     ctx.note("programs whose meaning a SPEC interpreter defines: %d of %d (eval2, with closures: %d)" % (sum(1 for v in sem.values() if v[0].startswith("V")), len(sem), sem2_defined))
     ctx.note("generator distribution (let-fragment programs): %s; rich programs: %d fixed + %s" % (g.stats, len(RICH), g2.stats))
